@@ -623,12 +623,17 @@ int reproc_stop(reproc_t *process, reproc_stop_actions stop)
   int r = -1;
 
   for (size_t i = 0; i < ARRAY_SIZE(actions); i++) {
+    if (actions[i].action == REPROC_STOP_NOOP) {
+      // Skip without touching the result of the previous step: a noop after a
+      // wait that timed out must not turn the timeout into exit status 0.
+      continue;
+    }
+
     r = REPROC_EINVAL; // NOLINT
 
     switch (actions[i].action) {
       case REPROC_STOP_NOOP:
-        r = 0;
-        continue;
+        break;
       case REPROC_STOP_WAIT:
         r = 0;
         break;
